@@ -179,3 +179,102 @@ def run_bndflag(prog, rule="R-BNDFLAG", floor=6):
     res.counts["bound_storing_functions"] = n
     res.floor("(function, bound array) pairs that store a file-given bound", n, floor)
     return res
+
+
+def run_msgmeans(prog, rule="R-MSGMEANS", floor=4):
+    """a message is not a refusal.  The bound setters of the raw LP return a `const char *`: NULL, or a text for the reader's warning
+    channel.  A setter whose non-NULL returns lie both on paths that have stored into the record (an informational remark: "0.0 upper
+    bound fixes variable") and on paths that have stored nothing (a refusal: "Using previous bound definition") has a return value that
+    does not tell the two apart; a caller must then not make a further store (the integer mark of an `UI` record) depend on the value
+    being NULL.  Path-sensitive: per return, whether a store through a pointer parameter lies on the path."""
+    from ..core import Flow, walk, strip, is_var, const_of, show, short_loc, apath
+    from ..cond import atoms, SWAP
+    res = RuleResult(rule, "no caller gates a store on the NULL-ness of a message returned by a setter whose messages accompany both applied and refused "
+                           "requests")
+    funcs = [f for f in prog.funcs.values() if f.live is not None and "_dbl." not in f.unit and "_mpf." not in f.unit and f.unit.startswith("qsopt_ex/")]
+    setters = {}
+    for f in funcs:
+        if "char" not in (f.ret or "") or "*" not in (f.ret or ""):
+            continue
+        rets = [e for b, i, e in f.elements() if e[0] == "R" and e[1] is not None]
+        if not any(isinstance(strip(e[1]), list) and strip(e[1])[0] == "s" for e in rets):
+            continue
+        kinds = set()
+
+        def xfer(b, i, e, st):
+            if e[0] in ("A", "C"):
+                tgt = None
+                if e[0] == "A":
+                    tgt = e[1][2]
+                elif e[1][3]:
+                    tgt = e[1][3][0] if any(k in (e[1][1] or "") for k in ("_set", "EGlpNumCopy", "EGlpNumZero", "EGlpNumOne", "mpq_")) else None
+                if tgt is not None:
+                    p = apath(tgt)
+                    if p and isinstance(p[0], str) and p[0].startswith("p") and "->" in (p[2] or "") or (p and str(p[0]).startswith("p") and "[]" in (p[2] or "")):
+                        st = (1,)
+            if e[0] == "R" and e[1] is not None:
+                r = strip(e[1])
+                if isinstance(r, list) and r and r[0] == "s":
+                    kinds.add((st[0], r[1][:40]))
+            return [st]
+        Flow(prog, f, [(0,)], xfer, None).run()
+        if kinds:
+            setters[f.key] = kinds
+    ambiguous = {k for k, v in setters.items() if {w for w, _ in v} == {0, 1}}
+    res.counts["message_returning_setters"] = sorted(prog.funcs[k].name for k in setters)
+    res.counts["of_which_with_messages_on_applied_and_on_refused_paths"] = sorted(prog.funcs[k].name for k in ambiguous)
+    n = 0
+    for f in sorted(funcs, key=lambda x: x.key):
+        for b, i, e in f.elements():
+            if e[0] != "A" or e[1][1] != "=" or not is_var(strip(e[1][2]), kind="l"):
+                continue
+            r = strip(e[1][3])
+            if not (isinstance(r, list) and r and r[0] == "c" and r[1]):
+                continue
+            g = prog.resolve(f, r[1])
+            if g is None or g.key not in setters:
+                continue
+            n += 1
+            res.obligations += 1
+            res.nontrivial += 1
+            msg = strip(e[1][2])[2]
+            # the condition that follows in the same block / its successors and tests msg against NULL
+            gate = None
+            seen = set()
+            work = [b["id"]]
+            while work and gate is None:
+                x = work.pop()
+                if x in seen:
+                    continue
+                seen.add(x)
+                blk = f.blocks[x]
+                if x != b["id"] and any(e2[0] == "A" and is_var(strip(e2[1][2]), name=msg) for e2 in blk["e"]):
+                    continue
+                c = blk.get("c")
+                ss = prog.live_succs(f, blk)
+                if c is not None and len(ss) == 2:
+                    for idx, s_ in enumerate(ss):
+                        if s_ is None:
+                            continue
+                        for l, op, rr in atoms(c, idx == 0):
+                            for a, b_, o in ((l, rr, op), (rr, l, SWAP[op])):
+                                if is_var(a, name=msg) and const_of(b_) == 0 and o == "==":
+                                    if any(e3[0] == "A" for e3 in f.blocks[s_]["e"]):
+                                        gate = (s_, blk.get("tloc", f.loc))
+                    if gate is None and x == b["id"]:
+                        continue
+                if gate is None and (c is None or x == b["id"]):
+                    work.extend(s for s in ss if s is not None)
+            if gate is None:
+                res.sample({"site": "%s %s: %s" % (short_loc(e[2]), f.name, show(e[1])[:60]), "verdict": "no store gated on the message"}, limit=6)
+                continue
+            if g.key in ambiguous:
+                st = [e3 for e3 in f.blocks[gate[0]]["e"] if e3[0] == "A"][0]
+                res.violations.append(Violation(rule, "%s|store gated on the message of %s" % (f.name.replace("mpq_", ""), g.name.replace("mpq_", "")), f.name, short_loc(gate[1]),
+                                                "%s is made only when %s returned NULL, but %s also returns a message (%s) on a path on which the request has been "
+                                                "applied" % (show(st[1])[:50], g.name, g.name, "; ".join(sorted(t for w, t in setters[g.key] if w == 1)))))
+            else:
+                res.sample({"site": "%s %s: %s" % (short_loc(e[2]), f.name, show(e[1])[:60]), "verdict": "gated; every message of the setter is a refusal"}, limit=6)
+    res.counts["calls_of_message_returning_setters"] = n
+    res.floor("calls of message-returning setters whose value is kept", n, floor)
+    return res
